@@ -114,8 +114,13 @@ def rule_a1(chk: Check) -> None:
                     node, vals = rets[-1]
                     verdict = vals[0].value if isinstance(vals[0], BoolV) else None
                     status = None
-                    if len(vals) > 1 and isinstance(vals[1], StrV) and isinstance(vals[1].exact, str) and vals[1].exact[:2].isdigit():
-                        status = int(vals[1].exact[:2])
+                    head = None
+                    if len(vals) > 1 and isinstance(vals[1], StrV):
+                        # the status is the first two characters; the rest of the line may be
+                        # computed (e.g. naming the resource), so a known prefix is enough
+                        head = vals[1].exact if isinstance(vals[1].exact, str) else (vals[1].prefix if isinstance(vals[1].prefix, str) else None)
+                    if head is not None and len(head) >= 3 and head[:2].isdigit() and head[2] == " ":
+                        status = int(head[:2])
                     got.add((verdict, status))
                     if (verdict, status) != want:
                         witness = path
@@ -413,11 +418,20 @@ def path_form(defs: Defs, node, e: ast.AST, depth=0) -> PathForm:
                 return path_form(defs, node, e.args[-1], depth + 1)
         return PathForm()
     if isinstance(e, ast.Attribute):
-        return PathForm()  # request.path / parsed.path: the raw path
+        # parsed.path: the raw path; request.path: whatever the property of the
+        # request class applies (normally nothing)
+        from .common import request_accessor_decodes
+
+        k = request_accessor_decodes(_PROJ[0], node.func, e) if _PROJ[0] is not None else 0
+        return PathForm(decoded=k)
     return PathForm()
 
 
+_PROJ: list = [None]
+
+
 def rule_a5(chk: Check) -> None:
+    _PROJ[0] = chk.proj
     chk.rule("A5", "the value the matcher compares with rule prefixes is canonicalised like the path the static handler serves (decode count, dot segments, repeated and leading slashes) and a directory without trailing slash is matched as the directory")
     from ..cfg import Builder, inline_self_methods
 
@@ -431,14 +445,15 @@ def rule_a5(chk: Check) -> None:
     forms = [path_form(defs, t, method_call(t.ast)[0]) for t in tests]
     # served side
     hd = chk.proj.func("server.handler:StaticFileHandler.handle")
-    g2 = build_cfg(chk.proj, hd)
+    g2 = Builder(chk.proj, inline_self_methods, 3).build(hd)  # the resolution may live in a helper
     d2 = Defs(g2)
     served = None
     for n in g2.nodes:
-        if n.kind == "stmt" and isinstance(n.ast, ast.Assign) and isinstance(n.ast.value, ast.Call) and method_call(n.ast.value) and method_call(n.ast.value)[1] == "resolve":
-            inner = method_call(n.ast.value)[0]
+        val = n.ast.value if n.kind == "stmt" and isinstance(n.ast, (ast.Assign, ast.Return)) else None
+        if isinstance(val, ast.Call) and method_call(val) and method_call(val)[1] == "resolve":
+            inner = method_call(val)[0]
             if any(dotted(x) == "self.document_root" for x in walk(inner)):
-                served = path_form(d2, n, n.ast.value)
+                served = path_form(d2, n, val)
                 break
     if served is None:
         chk.floor("A5", "served-path resolution in the static handler", 0, 1)
